@@ -20,7 +20,9 @@ mod methods {
     }
 
     fn duration(seconds: i64, nanos: i64) -> CelResult<Duration> {
-        Duration::new(seconds, nanos as u32)
+        let nanos =
+            u32::try_from(nanos).map_err(|_| CelError::value("Invalid argument for duration"))?;
+        Duration::new(seconds, nanos)
             .ok_or_else(|| CelError::value("Invalid argument for duration"))
     }
 }
